@@ -448,6 +448,10 @@ def c13c(ctx, prog, impls):
                         b.name, short(s.node["fn"]["path"]), short(site.node["fn"]["path"])))
                 elif kind == "return":
                     ctx.fail(o3, s, "%s returns a layout-dependent slice" % b.name)
+    # the raw storage of a bit vector is the value only at head offset 0 (shared rule with C12.m)
+    from . import C12
+    C12.raw_bit_storage(ctx, prog, bodies, "C13.c", "BitVec/raw-storage-read-only-when-aligned",
+                        "a StableHash body: equal vectors with different histories hash differently and bits next to the head are never hashed")
     o.sites = n
     if n < 300:
         ctx.fail(o, "(program)", "only %d call sites examined in StableHash bodies (expected >= 300)" % n)
